@@ -1,13 +1,13 @@
 SPECIFICATION Spec
 CONSTANTS
   SID = {1}
-  Profiles <- ProfNone
+  Profiles <- ProfChain
   MaxVal = 0
-  DEV <- NoDev
+  DEV <- Dev_SkipUnflagged
   MaxVer = 3
-  WithSnap = TRUE
+  WithSnap = FALSE
   SelfCopy = TRUE
 CONSTRAINT VerBound
 VIEW View
-INVARIANTS DiffMeaning SysStageLeMin
+INVARIANTS Refinement
 CHECK_DEADLOCK FALSE
